@@ -33,7 +33,68 @@ func init() {
 					c.Unresolved(key, "Write of %s not found", fam.Upload.Obj().Name())
 					continue
 				}
-				isLookup := func(v ssa.Value) bool {
+				var isLookup, isDirectLookup func(v ssa.Value) bool
+				// a step of the store that answers nil only when the lookup found the session (`sessionTouch(cache, id)`,
+				// `dru.sessionCheck()`): every nil return behind the found-edge of a lookup, every other return not nil
+				viaStep := func(v ssa.Value) bool {
+					call, _ := an.CallOf(an.Origin(v))
+					if call == nil {
+						if ex, ok := an.Strip(v).(*ssa.Extract); ok {
+							call, _ = ex.Tuple.(*ssa.Call)
+						} else if cc, ok := an.Strip(v).(*ssa.Call); ok {
+							call = cc
+						}
+					}
+					if call == nil {
+						return false
+					}
+					h := call.Call.StaticCallee()
+					if h == nil || len(h.Blocks) == 0 || len(h.Blocks) > 16 || core.FuncPkgPath(h) != r.StorePath || h.Signature.Results().Len() == 0 {
+						return false
+					}
+					okAll, nNil := true, 0
+					an.Instrs(h, func(in ssa.Instruction) {
+						ret, isRet := in.(*ssa.Return)
+						if !isRet || len(ret.Results) == 0 {
+							return
+						}
+						res := ret.Results[len(ret.Results)-1]
+						behindFound, behindNonNil := false, false
+						for _, g := range an.GuardingEdges(ret.Block()) {
+							if x, nilSucc, isNil := an.NilTest(g.If()); isNil {
+								if g.Succ == nilSucc && isLookup(x) {
+									behindFound = true
+								}
+								if g.Succ != nilSucc && (x == res || an.Origin(x) == an.Origin(res)) {
+									behindNonNil = true
+								}
+							}
+						}
+						switch {
+						case an.IsNilConst(res):
+							nNil++
+							if !behindFound {
+								okAll = false
+							}
+						case behindNonNil, isLookup(res):
+						default:
+							if cc, _ := an.CallOf(an.Origin(res)); cc != nil && (an.IsFunc(cc, "fmt", "Errorf") || an.IsFunc(cc, "errors", "New")) {
+								return
+							}
+							if !behindFound {
+								okAll = false
+							}
+						}
+					})
+					return okAll && nNil > 0
+				}
+				isLookup = func(v ssa.Value) bool {
+					if isDirectLookup(v) {
+						return true
+					}
+					return viaStep(v)
+				}
+				isDirectLookup = func(v ssa.Value) bool {
 					call, _ := an.CallOf(an.Origin(v))
 					if call == nil {
 						if ex, ok := an.Strip(v).(*ssa.Extract); ok {
